@@ -486,6 +486,25 @@ func (env *Env) evalCall(e *Expr) *Val {
 		v := env.eval(e.Args[0])
 		t := env.resolveType(e.Args[1])
 		return env.c.unbox(env.cur, v, t)
+	case "oldarrays_unchanged":
+		// oldarrays_unchanged(s): every backing array of s's element type that existed at function
+		// entry still has its entry contents (loop frame for code that only writes to arrays
+		// allocated during the call)
+		v := env.eval(e.Args[0])
+		if v.K != VSlice || env.old == nil {
+			efail("oldarrays_unchanged needs a slice and an entry state")
+		}
+		et := elemTypeOf(v.T)
+		var cs []*Term
+		x := BVar("x", SInt)
+		for _, cp := range comps(et) {
+			name := arrMapName(et, cp.suffix)
+			srt := SArr(SInt, SArr(SInt, cp.sort))
+			cur := env.cur.hget(name, srt)
+			old := env.old.hget(name, srt)
+			cs = append(cs, Forall([]*Term{x}, [][]*Term{{Select(cur, x)}}, Implies(Lt(x, env.old.ac), Eq(Select(cur, x), Select(old, x)))))
+		}
+		return mathBool(And(cs...))
 	case "ref": // identity of a value as an integer
 		return mathInt(identity(env.eval(e.Args[0])))
 	case "sameslice": // same backing array, offset, len
